@@ -70,12 +70,21 @@ type Created struct {
 	Mem  []reflect.Value // struct paths: the in-memory records after Create
 	Maps []map[string]interface{}
 	N    int
+	// ShadowIn: canonical input of the shadowed fields (not stored; must stay as they are in memory)
+	ShadowIn [][]string
 }
 
 // Create runs the plan. A panic inside gorm is returned as an error.
 func (e *Env) Create(rs *Records, p CreatePlan) (c *Created, err error) {
 	c = &Created{Plan: p, N: len(rs.Vals)}
 	c.In, c.Zero = rs.Snapshot()
+	for _, rec := range rs.Vals {
+		var sh []string
+		for _, l := range e.M.Shadowed {
+			sh = append(sh, l.Canon(rec))
+		}
+		c.ShadowIn = append(c.ShadowIn, sh)
+	}
 	defer func() {
 		if r := recover(); r != nil {
 			err = fmt.Errorf("Create panicked: %v", r)
@@ -318,6 +327,13 @@ func (e *Env) Check(c *Created, reads []string) error {
 				}
 			}
 		}
+		for i, rec := range c.Mem {
+			for j, l := range M.Shadowed {
+				if got := l.Canon(rec); got != c.ShadowIn[i][j] {
+					return fmt.Errorf("record %d field %s (shadowed by an outer field with the same column %s): in memory after Create %s, was %s", i, l.GoPath, l.DBName, got, c.ShadowIn[i][j])
+				}
+			}
+		}
 		// ---- (3) keys non-zero and distinct
 		seen := map[string]int{}
 		for i, rec := range c.Mem {
@@ -414,6 +430,28 @@ func (e *Env) Check(c *Created, reads []string) error {
 		}
 	}
 	stored := func(i int) reflect.Value { return all.Elem().Index(i) }
+
+	// a Find whose iteration fails at a later row (abs(-9223372036854775808) is an integer
+	// overflow error in SQLite, raised when the scan reaches the row with record k's marker)
+	// reports the error: it never returns the rows before it as if they were the whole result
+	if c.N >= 2 {
+		k := c.N - 1
+		failing := "abs((" + quote(ml.DBName) + " = ?) * (-9223372036854775807 - 1)) >= 0 AND " + between
+		var n int
+		var err error
+		if c.N%2 == 0 {
+			out := reflect.New(reflect.SliceOf(M.Type))
+			err = e.T().Where(failing, e.markerOf(k, c), lo, hi).Find(out.Interface()).Error
+			n = out.Elem().Len()
+		} else {
+			var ms []map[string]interface{}
+			err = e.T().Where(failing, e.markerOf(k, c), lo, hi).Find(&ms).Error
+			n = len(ms)
+		}
+		if err == nil && n != c.N {
+			return fmt.Errorf("find with a condition that fails on the row of record %d (marker %d): %d of %d rows returned and Error == nil (the iteration error was dropped)", k, e.markerOf(k, c), n, c.N)
+		}
+	}
 
 	// (3) the row with record i's key holds record i's marker (raw SQL, independent of gorm's reader)
 	if len(keys) > 0 && !c.Plan.IsMap() {
